@@ -52,6 +52,21 @@
 (*                          application of a decorator, factory call)                          *)
 (*   sethook m f | dcall "hk"      m.hk = f: a function stored into another file's globals     *)
 (*                          through the module object; whoever calls hk runs it in ITS context *)
+(* Clean-up code and cancellation - round 4:                                                   *)
+(*   try body fin          `try: <body> finally: <fin>` in a function body (nested freely).  A *)
+(*                          frame keeps a stack `hs` of active handlers; an exception that     *)
+(*                          reaches a frame with an active handler runs the fin code IN THAT   *)
+(*                          FRAME (the callee's frames are gone, the caller's context is back) *)
+(*                          and then goes on unwinding; pyscript code cannot catch a           *)
+(*                          cancellation (`except Exception` does not), only clean up          *)
+(*   unique n killme       task.unique(n [, kill_me=True]) - context-bound: the name belongs   *)
+(*                          to the context of the code that calls it.  Held by another live    *)
+(*                          evaluator: that one is cancelled (killme: the caller is) - the     *)
+(*                          victim is suspended somewhere, possibly inside a function of       *)
+(*                          another file; the cancellation is delivered as soon as no          *)
+(*                          evaluator runs (after the first steps of tasks just created),      *)
+(*                          unwinds ALL its frames - each pop restores the caller's context -  *)
+(*                          running the fin code of every active handler on the way            *)
 (* fl = named deviations:                                                                      *)
 (*   "rel-sibling-name"     (pinned tree) a relative import in a package member other than     *)
 (*                          __init__.py loads the file under `alt`: a second instance          *)
@@ -65,11 +80,15 @@
 (*   "switch-by-def-site"   the context switch of a call is decided by comparing the caller's  *)
 (*                          context with the context in which the function was last BOUND by a *)
 (*                          def statement (the decorating file), not with its own   (mutant)   *)
+(*   "no-restore-on-cancel" the caller's context is not restored when the callee is cancelled  *)
+(*                          (restored for ordinary exceptions and returns)        (mutant)     *)
+(*   "unique-names-global"  task.unique names are one name space for all files    (mutant)     *)
 EXTENDS Naturals, Sequences, FiniteSets, TLC
 
 Undef == [k |-> "undef"]
 NoCb  == [k |-> "none"]
 D0    == 3                                              \* depth budget of an entry point
+Forever == 1000000000                                   \* an evaluator that waits to be cancelled
 Data(v) == [k |-> "data", v |-> v]
 \* ctx: globals it runs against; src: file of its text; fn: the function captured by a closure (or none);
 \* site: the context in which a def statement last bound it (only tracked under "switch-by-def-site")
@@ -90,20 +109,35 @@ FindDef(body, f) ==                              \* the (last) def of f in a fil
        IF s.op \in {"def", "ldef"} /\ s.f = f THEN s.body
        ELSE IF s.op \in {"def", "ldef"} /\ FindDef(s.body, f) # <<>> THEN FindDef(s.body, f)
        ELSE FindDef(SubSeq(body, 1, Len(body) - 1), f)
-BodyOf(P, fv) == FindDef(P.files[fv.src].body, fv.name)
+\* try statements are laid out flat: <<try, body..., endtry, fin..., endfin>>; `fin` = distance from the try to the first fin statement
+RECURSIVE Flat(_)
+Flat(code) ==
+  IF code = <<>> THEN <<>>
+  ELSE LET s == Head(code) IN
+       (IF s.op = "try" THEN LET b == Flat(s.body) IN <<[op |-> "try", fin |-> Len(b) + 2]>> \o b \o <<[op |-> "endtry"]>> \o Flat(s.fin) \o <<[op |-> "endfin"]>>
+        ELSE <<s>>) \o Flat(Tail(code))
+BodyOf(P, fv) == Flat(FindDef(P.files[fv.src].body, fv.name))
 
 \* ----------------------------------------------------------------------------- machine state
-\* S = [tabs, inst, ptr, stack, log, writes, queue, tasks, trigs, ok, now, sleepers, slot, ev, nid, last, ctxobs]
+\* S = [tabs, inst, ptr, stack, log, writes, queue, tasks, trigs, ok, now, sleepers, slot, ev, nid, last, ctxobs, uniq, cancels, cx, from, kills]
 \* frame: bind = "" or the global name the caller binds the returned function to; trig = event the returned function is
 \* registered for; fn = the activation's _fn (argument of a decorator / captured function of a closure)
 Frame(code, saved, catch, own, kind, src, d, cb, fkey, fn, bind, trig) ==
   [code |-> code, pc |-> 1, saved |-> saved, catch |-> catch, own |-> own, kind |-> kind, src |-> src, locals |-> <<>>,
-   d |-> d, cb |-> cb, fkey |-> fkey, fn |-> fn, bind |-> bind, trig |-> trig]
+   d |-> d, cb |-> cb, fkey |-> fkey, fn |-> fn, bind |-> bind, trig |-> trig, hs |-> <<>>]
+\* hs: active try statements of the activation, innermost last: [fin = pc of the first fin statement, st = "body" | "fin",
+\*     pend = what goes on after the fin code: "none" | "error" | "cancel"]
 NoEv == [id |-> 0, bound |-> 0, by |-> 0]               \* by: the evaluator that created this one with task.create (0: none)
 Start(P) == [tabs |-> <<>>, inst |-> <<>>, ptr |-> "", stack |-> <<>>, log |-> <<>>, writes |-> {},
              queue |-> [i \in 1..Len(P.order) |-> [w |-> "file", c |-> P.order[i]]] \o [i \in 1..Len(P.events) |-> [w |-> "event", e |-> P.events[i]]],
              tasks |-> <<>>, trigs |-> <<>>, ok |-> TRUE, now |-> 0, sleepers |-> <<>>, slot |-> <<>>,
-             ev |-> NoEv, nid |-> 1, last |-> <<>>, ctxobs |-> {}]
+             ev |-> NoEv, nid |-> 1, last |-> <<>>, ctxobs |-> {},
+             uniq |-> <<>>,          \* [c, n] -> [id, own]: the live evaluator holding task name n of context c (own: whose code registered it)
+             cancels |-> <<>>,       \* cancellations requested, not yet delivered: << [id, self] >>
+             cx |-> {},              \* (ghost) unwinding: frames left by an exception [exc, from, to, catch, fin = FALSE] and clean-up code
+                                     \*         started by one [exc, from = context of the frame popped just before or "", to, FALSE, fin = TRUE]
+             from |-> "",            \* (ghost) while unwinding: the context of the frame popped last
+             kills |-> {}]           \* (ghost) cancellations requested through a task name: [own, reg, self]
 Done(S) == S.stack = <<>> /\ S.queue = <<>> /\ S.tasks = <<>> /\ S.sleepers = <<>>
 Top(S) == S.stack[Len(S.stack)]
 Cur(S) == Top(S).code[Top(S).pc]
@@ -135,29 +169,42 @@ EnterX(P, S, fv, catch, fl, d, cb, fn, bind, trig) ==
   IN [S EXCEPT !.stack = Append(@, Frame(BodyOf(P, fv), S.ptr, catch, fv.ctx, "call", fv.src, d, cb, fv, fn, bind, trig)), !.ptr = to,
                !.slot = IF "scope-on-function" \in fl THEN Put(@, fv, IF S.ptr # fv.ctx THEN S.ptr ELSE "") ELSE @]
 Enter(P, S, fv, catch, fl, d, cb) == EnterX(P, S, fv, catch, fl, d, cb, fv.fn, "", "")
+\* an evaluator that ends gives up the task names it holds
+DropHolder(u, id) == [k \in { j \in DOMAIN u : u[j].id # id } |-> u[k]]
 \* leave the top frame normally: the caller's context is restored; an evaluator that ends keeps its last pointer
 Leave(S, fl) ==
   LET f == Top(S)
       last == Len(S.stack) = 1
-      S0 == IF last THEN [S EXCEPT !.last = Put(@, S.ev.id, IF f.saved # "" THEN f.saved ELSE S.ptr), !.ev = NoEv] ELSE S
+      S0 == IF last THEN [S EXCEPT !.last = Put(@, S.ev.id, IF f.saved # "" THEN f.saved ELSE S.ptr), !.ev = NoEv, !.uniq = DropHolder(@, S.ev.id)] ELSE S
   IN IF "scope-on-function" \in fl /\ f.kind = "call"
      THEN LET sv == IF Has(S.slot, f.fkey) THEN S.slot[f.fkey] ELSE "" IN
           [S0 EXCEPT !.stack = SubSeq(@, 1, Len(@) - 1), !.ptr = IF last THEN "" ELSE IF sv # "" THEN sv ELSE @,
                      !.slot = Put(@, f.fkey, "")]
      ELSE [S0 EXCEPT !.stack = SubSeq(@, 1, Len(@) - 1), !.ptr = IF last THEN "" ELSE f.saved]
-\* an exception propagates: frames are popped (pointer restored at each) up to and including the first
-\* frame entered by a try-call; its caller logs `caught` and continues
-RECURSIVE Unwind(_, _)
-Unwind(S, fl) ==
+\* an exception (exc = "error": raised by code; "cancel": the evaluator was cancelled) propagates: a frame with an active try
+\* statement runs its fin code first (in that frame, with the context the frame had) and goes on unwinding at `endfin`; otherwise
+\* the frame is popped (pointer restored) - up to and including the first frame entered by a try-call, whose caller logs
+\* `caught` and continues.  A cancellation is not an Exception: no try-call catches it, every frame of the evaluator goes.
+RECURSIVE Unwind(_, _, _)
+Unwind(S, fl, exc) ==
   IF S.stack = <<>> THEN S
   ELSE LET f == Top(S)
-           S1 == IF "no-restore-on-raise" \in fl
-                 THEN [(IF Len(S.stack) = 1 THEN [S EXCEPT !.last = Put(@, S.ev.id, S.ptr), !.ev = NoEv, !.ptr = ""] ELSE S)
-                       EXCEPT !.stack = SubSeq(@, 1, Len(@) - 1)]
-                 ELSE Leave(S, fl)
-       IN IF f.catch # "" THEN Adv(Logv(S1, f.catch, Data("caught")))
-          ELSE IF f.kind \in {"file", "module"} \/ f.bind # "" THEN [S1 EXCEPT !.ok = FALSE]   \* a file (a decorator) that raises is not generated
-          ELSE Unwind(S1, fl)
+           n == Len(S.stack)
+       IN IF f.hs # <<>>
+          THEN LET h == f.hs[Len(f.hs)] IN
+               IF h.st = "body" THEN [S EXCEPT !.stack[n].hs[Len(f.hs)] = [h EXCEPT !.st = "fin", !.pend = exc], !.stack[n].pc = h.fin, !.from = "",
+                                               !.cx = @ \cup {[exc |-> exc, from |-> S.from, to |-> f.own, catch |-> FALSE, fin |-> TRUE]}]
+               ELSE Unwind([S EXCEPT !.stack[n].hs = SubSeq(@, 1, Len(@) - 1)], fl, exc)      \* raised by fin code: replaces what was pending
+          ELSE LET keep == ("no-restore-on-raise" \in fl /\ exc = "error") \/ ("no-restore-on-cancel" \in fl /\ exc = "cancel")
+                   S0 == IF keep
+                         THEN [(IF n = 1 THEN [S EXCEPT !.last = Put(@, S.ev.id, S.ptr), !.ev = NoEv, !.ptr = "", !.uniq = DropHolder(@, S.ev.id)] ELSE S)
+                               EXCEPT !.stack = SubSeq(@, 1, n - 1)]
+                         ELSE Leave(S, fl)
+                   S1 == IF n = 1 THEN [S0 EXCEPT !.from = ""]
+                         ELSE [S0 EXCEPT !.from = f.own, !.cx = @ \cup {[exc |-> exc, from |-> f.own, to |-> S.stack[n - 1].own, catch |-> f.catch # "", fin |-> FALSE]}]
+               IN IF f.catch # "" /\ exc = "error" THEN Adv(Logv([S1 EXCEPT !.from = ""], f.catch, Data("caught")))
+                  ELSE IF f.kind \in {"file", "module"} \/ f.bind # "" THEN [S1 EXCEPT !.ok = FALSE]   \* a file (a decorator) that raises is not generated
+                  ELSE Unwind(S1, fl, exc)
 \* the top frame ends (end of body: hasval = FALSE; `ret x`: hasval = TRUE): the caller's context is restored, then the
 \* caller binds the returned function (decorated def / bindcall) in ITS globals, logs the outcome of a try-call, goes on
 Finish(S, fl, hasval, val) ==
@@ -206,11 +253,11 @@ Exec(P, S, fl) ==
     [] s.op = "loc"  -> Adv([S EXCEPT !.stack[Len(S.stack)].locals = Put(@, s.x, Data(s.v))])
     [] s.op = "read" -> Adv(Logv(S, s.tag, Show(Lookup(S, s.x))))
     [] s.op = "readattr" -> LET m == Lookup(S, s.m) IN Adv(Logv(S, s.tag, IF m.k = "mod" THEN Show(Get(Table(S, m.ctx), s.x)) ELSE Undef))
-    [] s.op = "setattr"  -> LET m == Lookup(S, s.m) IN IF m.k = "mod" THEN Adv(WriteG(S, m.ctx, s.x, Data(s.v), "module-object")) ELSE Unwind(S, fl)
+    [] s.op = "setattr"  -> LET m == Lookup(S, s.m) IN IF m.k = "mod" THEN Adv(WriteG(S, m.ctx, s.x, Data(s.v), "module-object")) ELSE Unwind(S, fl, "error")
     [] s.op = "sethook"  -> LET m == Lookup(S, s.m)                    \* m.hk = f
                                 v == Lookup(S, s.f)
-                            IN IF m.k = "mod" /\ v.k = "func" THEN Adv(WriteG(S, m.ctx, "hk", v, "module-object")) ELSE Unwind(S, fl)
-    [] s.op = "raise" -> Unwind(S, fl)
+                            IN IF m.k = "mod" /\ v.k = "func" THEN Adv(WriteG(S, m.ctx, "hk", v, "module-object")) ELSE Unwind(S, fl, "error")
+    [] s.op = "raise" -> Unwind(S, fl, "error")
     [] s.op = "def"  ->
          LET fv == Func(S.ptr, s.f, f.src)
              dv == IF s.deco = "" THEN Undef ELSE Callee(S, s.deco, s.dvia)
@@ -232,32 +279,45 @@ Exec(P, S, fl) ==
              catch == IF s.op = "trycall" THEN s.tag ELSE ""
          IN IF fv.k = "func" THEN Enter(P, S, fv, catch, fl, f.d, NoCb)
             ELSE IF s.op = "trycall" THEN Adv(Logv(S, s.tag, Data("NameError")))       \* not visible here: rendered with except NameError
-            ELSE Unwind(S, fl)
+            ELSE Unwind(S, fl, "error")
     [] s.op = "import" ->
          LET c == ImportCtx(s, S, fl)
              again == "star-second-instance" \in fl /\ s.form = "star" /\ Get(S.inst, c) = 1
          IN IF Has(S.inst, c) /\ ~again THEN Adv(Bind(S, s, c))                              \* lookup before load: the one instance
-            ELSE [S EXCEPT !.stack = Append(@, Frame(P.files[s.target].body, S.ptr, "", c, "module", s.target, D0, NoCb, Undef, NoCb, "", "")),
+            ELSE [S EXCEPT !.stack = Append(@, Frame(Flat(P.files[s.target].body), S.ptr, "", c, "module", s.target, D0, NoCb, Undef, NoCb, "", "")),
                            !.ptr = c, !.tabs = Put(@, c, <<>>), !.inst = Put(@, c, IF Has(S.inst, c) THEN S.inst[c] + 1 ELSE 1)]
     [] s.op = "task"   -> LET fv == Callee(S, s.f, s.via)                \* task.create is context-bound too: the new evaluator starts in
                           IN Adv(IF fv.k = "func"                        \* the context its creator's functions see
                                  THEN [S EXCEPT !.tasks = Append(@, [fv |-> fv, from |-> CtxSeen(S), by |-> S.ev.id])] ELSE S)
     [] s.op = "sleep"  -> Suspend(S, s.t, "")                            \* suspend: another evaluator runs
+    [] s.op = "try"    -> Adv([S EXCEPT !.stack[Len(S.stack)].hs = Append(@, [fin |-> f.pc + s.fin, st |-> "body", pend |-> "none"])])
+    [] s.op = "endtry" -> Adv([S EXCEPT !.stack[Len(S.stack)].hs[Len(f.hs)].st = "fin"])      \* the body ended normally: the fin code follows
+    [] s.op = "endfin" -> LET h == f.hs[Len(f.hs)]
+                              S1 == [S EXCEPT !.stack[Len(S.stack)].hs = SubSeq(@, 1, Len(@) - 1)]
+                          IN IF h.pend = "none" THEN Adv(S1) ELSE Unwind(S1, fl, h.pend)
+    [] s.op = "unique" ->                                                \* context-bound: the name space is that of the running code's context
+         LET key == [c |-> IF "unique-names-global" \in fl THEN "" ELSE CtxSeen(S), n |-> s.n]
+             held == IF Has(S.uniq, key) THEN S.uniq[key].id # S.ev.id ELSE FALSE
+             S0 == IF held THEN [ObsCtx(S) EXCEPT !.kills = @ \cup {[own |-> f.own, reg |-> S.uniq[key].own, self |-> s.killme]}] ELSE ObsCtx(S)
+         IN IF held /\ s.killme
+            THEN [Suspend(S0, Forever, "") EXCEPT !.cancels = Append(@, [id |-> S.ev.id, self |-> TRUE])]      \* waits to be cancelled
+            ELSE Adv([S0 EXCEPT !.uniq = Put(@, key, [id |-> S.ev.id, own |-> f.own]),
+                                !.cancels = IF held THEN Append(@, [id |-> S.uniq[key].id, self |-> FALSE]) ELSE @])
     [] s.op = "dcall"  ->
          IF f.d = 0 THEN Adv(S)
          ELSE LET fv == Callee(S, s.f, s.via)
                   cb == IF s.cb = "" THEN NoCb ELSE Lookup(S, s.cb)
               IN IF s.f = "_cb" /\ fv = NoCb THEN Adv(S)                                   \* no callback was passed
                  ELSE IF fv.k = "func" /\ cb.k \in {"func", "none"} THEN Enter(P, S, fv, "", fl, f.d - 1, cb)
-                 ELSE Unwind(S, fl)
+                 ELSE Unwind(S, fl, "error")
     [] s.op = "setctx" -> Adv([S EXCEPT !.ptr = s.name, !.stack[Len(S.stack)].own = s.name])
     [] s.op \in {"getctx", "listctx"} -> Adv(Logv(ObsCtx(S), s.tag, Data(CtxSeen(S))))
     [] s.op = "wexpr"  -> LET v == Get(Table(S, CtxSeen(S)), s.x) IN          \* globals only: locals are not visible to the expression
-                          IF v = Undef THEN Unwind(ObsCtx(S), fl)                 \* NameError raised in the caller
+                          IF v = Undef THEN Unwind(ObsCtx(S), fl, "error")                 \* NameError raised in the caller
                           ELSE IF v = Data(s.v) THEN Adv(Logv(ObsCtx(S), s.tag, Data("state")))
                           ELSE Suspend(ObsCtx(S), s.t, s.tag)
 
-\* when no evaluator runs: created tasks first (in order); then a suspended evaluator (index i of `sleepers`;
+\* when no evaluator runs: created tasks first (in order); then the cancellations requested; then a suspended evaluator (index i of `sleepers`;
 \* the acceptor resumes the one that wakes first, the state machine any of them); then the next file to load;
 \* finally all events are fired in one burst (every triggered function becomes an evaluator)
 StartFrame(P, fv) == Frame(BodyOf(P, fv), "", "", fv.ctx, "call", fv.src, D0, NoCb, fv, fv.fn, "", "")
@@ -283,18 +343,31 @@ Dispatch(P, S, fl, i) ==
            S1 == [S EXCEPT !.tasks = Tail(@), !.ptr = t.from, !.nid = @ + 1,
                            !.ev = [id |-> S.nid, bound |-> IF "task-funcs-of-creator" \in fl THEN t.by ELSE S.nid, by |-> t.by]]
        IN Enter(P, S1, t.fv, "", fl, D0, NoCb)
+  ELSE IF S.cancels # <<>>
+  THEN LET v == Head(S.cancels)          \* the victim (suspended) runs again, with the cancellation raised where it was suspended
+           S0 == [S EXCEPT !.cancels = Tail(@)]
+       IN IF \E k \in 1..Len(S.sleepers) : S.sleepers[k].ev.id = v.id
+          THEN LET k == CHOOSE j \in 1..Len(S.sleepers) : S.sleepers[j].ev.id = v.id
+                   e == S.sleepers[k]
+               IN Unwind([S0 EXCEPT !.ptr = e.ptr, !.stack = e.stack, !.ev = e.ev, !.sleepers = SubSeq(@, 1, k - 1) \o SubSeq(@, k + 1, Len(@))],
+                         fl, "cancel")
+          ELSE S0                        \* ended meanwhile (cancelled twice)
   ELSE IF S.sleepers # <<>> THEN Resume(S, i)
   ELSE LET w == Head(S.queue) IN
        IF w.w = "file"
-       THEN [S EXCEPT !.queue = Tail(@), !.stack = <<Frame(P.files[w.c].body, "", "", w.c, "file", w.c, D0, NoCb, Undef, NoCb, "", "")>>,
+       THEN [S EXCEPT !.queue = Tail(@), !.stack = <<Frame(Flat(P.files[w.c].body), "", "", w.c, "file", w.c, D0, NoCb, Undef, NoCb, "", "")>>,
                       !.ptr = w.c, !.tabs = Put(@, w.c, <<>>), !.inst = Put(@, w.c, 1), !.ev = [id |-> S.nid, bound |-> S.nid, by |-> 0], !.nid = @ + 1]
        ELSE [Fire(P, S, S.queue) EXCEPT !.queue = <<>>]
 StepPick(P, S, fl, i) == IF S.stack = <<>> THEN Dispatch(P, S, fl, i) ELSE Exec(P, S, fl)
 Step(P, S, fl) == StepPick(P, S, fl, IF S.sleepers = <<>> THEN 0 ELSE FirstAwake(S))
-Choices(S) == IF S.stack = <<>> /\ S.tasks = <<>> /\ S.sleepers # <<>> THEN 1..Len(S.sleepers) ELSE {0}
+Choices(S) == IF S.stack = <<>> /\ S.tasks = <<>> /\ S.cancels = <<>> /\ S.sleepers # <<>> THEN 1..Len(S.sleepers) ELSE {0}
 
+\* run to the end (16 steps per level of recursion: TLC's recursion is Java's)
+StepD(P, S, fl) == IF Done(S) THEN S ELSE Step(P, S, fl)
+Step4(P, S, fl) == StepD(P, StepD(P, StepD(P, StepD(P, S, fl), fl), fl), fl)
+Step16(P, S, fl) == Step4(P, Step4(P, Step4(P, Step4(P, S, fl), fl), fl), fl)
 RECURSIVE RunAll(_, _, _, _)
-RunAll(P, S, fl, fuel) == IF Done(S) \/ fuel = 0 THEN S ELSE RunAll(P, Step(P, S, fl), fl, fuel - 1)
+RunAll(P, S, fl, fuel) == IF Done(S) \/ fuel <= 0 THEN S ELSE RunAll(P, Step16(P, S, fl), fl, fuel - 16)
 
 \* ----------------------------------------------------------------------------- the statement
 \* plain assignments / definitions only ever reach the globals of the context the code belongs to (the file
@@ -309,6 +382,8 @@ PointerRestoredOnEveryExit(S) ==
 \* the context-bound functions (current context, expressions handed to task.wait_until) resolve against the context of
 \* the code that calls them - whichever file, trigger or task started the evaluator that runs it
 ContextFunctionsFollowTheCode(S) == \A o \in S.ctxobs : o.seen = o.own
+\* task names are per context too: code of one file never cancels a task through a name registered by code of another file
+TaskNamesPerContext(S) == \A k \in S.kills : k.own = k.reg
 \* however many importers and import forms: every file was executed at most once
 OneInstancePerModule(S) == \A c \in DOMAIN S.inst : S.inst[c] <= 1
 \* ... and under one name: no two contexts run the text of the same file
